@@ -1703,3 +1703,115 @@ Section Finite.
       replace (length tm + 2) with (S (length tm) + 1) by lia. exact Hmu.
   Qed.
 End Finite.
+
+(* ================================================================== statements for Props/C11.v *)
+
+Section ParentsSpec.
+  Variable pre : list name.
+  Variable m : smap.
+  Hypothesis m_sorted : msorted m.
+
+  (* what the result of the parent walk means *)
+  Theorem find_parents_spec n t :
+    In (n, t) m ->
+    fp_spec pre m n (parents_of pre m n t) /\ parents_of pre m n t <> Err EkFuel.
+  Proof.
+    intros Hin. assert (NoDup (mkeys m)) as Hnd by (apply msorted_nodup; auto).
+    assert (mfind n m = Some t) as Hf by (apply In_mfind; auto).
+    split.
+    - apply (find_parents_sound pre m (S (length m)) n n t []); auto.
+      + constructor.
+      + constructor; [intros []|constructor].
+    - apply (find_parents_fuel pre m (S (length m)) n n t []); auto.
+      + constructor.
+      + constructor; [intros []|constructor].
+      + apply (in_map fst) in Hin. exact Hin.
+      + simpl. lia.
+  Qed.
+
+  (* ... and the chain is returned whenever it exists: every target resolves up to a template
+     without `extends`, and no template repeats *)
+  Theorem find_parents_complete_spec n t l u :
+    In (n, t) m -> path (ext pre m) n l u -> is_root m u -> NoDup (n :: l) ->
+    parents_of pre m n t = Ok (rev l).
+  Proof.
+    intros Hin Hp Hr Hnd. assert (NoDup (mkeys m)) as Hk by (apply msorted_nodup; auto).
+    unfold parents_of.
+    rewrite (find_parents_complete pre m n l (S (length m)) n t [] u); auto.
+    - apply In_mfind; auto.
+    - inversion Hnd as [|? ? _ Hl]; subst.
+      pose proof (NoDup_incl_length Hl (epath_in_keys pre m _ _ _ Hp)) as Hle.
+      unfold mkeys in Hle. rewrite map_length in Hle. lia.
+  Qed.
+End ParentsSpec.
+
+Lemma inc_pinned_in_fixed pre m par x y :
+  In y (inc_succ_pinned pre m x) -> In y (inc_succ_fixed pre m par x).
+Proof.
+  unfold inc_succ_pinned, inc_succ_fixed. intros H. apply filter_map_In in H.
+  destruct H as (i & Hi & Hr). apply filter_map_In. exists i. split; auto.
+  apply nsort_In. apply in_or_app. auto.
+Qed.
+
+Lemma path_sub {A} (e1 e2 : A -> A -> Prop) :
+  (forall x y, e1 x y -> e2 x y) -> forall x l y, path e1 x l y -> path e2 x l y.
+Proof.
+  intros Hsub x l y Hp. induction Hp as [|a b l' c He Hp IH]; [constructor|].
+  apply (path_cons e2 a b l' c); auto.
+Qed.
+
+Lemma acyclic_sub {A} (e1 e2 : A -> A -> Prop) :
+  (forall x y, e1 x y -> e2 x y) -> acyclic e2 -> acyclic e1.
+Proof.
+  intros Hsub Hac x [l [Hne Hp]]. apply (Hac x). exists l. split; auto.
+  eapply path_sub; eauto.
+Qed.
+
+Lemma first_loop_inc ev m todo : forall par sz tab r,
+  ev_fix_d10 ev = false ->
+  first_loop ev m todo par sz tab = Ok r ->
+  forall n, In n (mkeys todo) -> check_include_cycles (inc_succ_pinned (ev_prefixes ev) m) m n = Ok tt.
+Proof.
+  induction todo as [|[k t] todo IH]; intros par sz tab r Hfx H n Hn; simpl in *; [destruct Hn|].
+  destruct (parents_of (ev_prefixes ev) m k t) as [ps|]; [|discriminate].
+  rewrite Hfx in H.
+  destruct (check_include_cycles (inc_succ_pinned (ev_prefixes ev) m) m k) as [[]|] eqn:E; [|discriminate].
+  destruct (add_components _ _ _ _) as [tab1|]; [|discriminate].
+  destruct Hn as [<-|Hn]; eauto.
+Qed.
+
+(* a set is accepted only if every extends target exists and the chains are repetition-free,
+   every include target exists, and the include relation (own include edges, main chunk /
+   blocks / component bodies alike) is acyclic *)
+Theorem accepted_only_if ev sufs m tm comps :
+  msorted m -> finalize_src ev sufs m = Ok (tm, comps) ->
+  (forall n t, In (n, t) m ->
+     exists ps u, parents_of (ev_prefixes ev) m n t = Ok ps /\
+                  path (ext (ev_prefixes ev) m) n (rev ps) u /\ is_root m u /\ NoDup (n :: ps)) /\
+  (forall n t i, In (n, t) m -> In i (td_includes t) ->
+     exists r, resolve (ev_prefixes ev) m i = Some r) /\
+  acyclic (edge (inc_succ_pinned (ev_prefixes ev) m)).
+Proof.
+  intros Hs H. unfold finalize_src in H.
+  destruct (first_loop ev m m [] [] []) as [[[par sz] tab]|] eqn:E1; [|discriminate].
+  assert (NoDup (mkeys m)) as Hnd by (apply msorted_nodup; auto).
+  destruct (first_loop_par ev m m [] [] [] par sz tab Hnd E1) as [_ F1].
+  destruct (if ev_fix_d10 ev then _ else _) as [[]|] eqn:E2; [|discriminate].
+  destruct (negb _) eqn:E3; [discriminate|].
+  apply negb_false_iff in E3. rewrite forallb_forall in E3.
+  split; [|split].
+  - intros n t Hin. destruct (F1 _ _ Hin) as (ps & Hp & _). exists ps.
+    destruct (parents_of_sound ev m Hs _ _ _ Hin Hp) as (u & A1 & A2 & A3). eauto.
+  - intros n t i Hin Hi. specialize (E3 _ Hin). simpl in E3.
+    apply andb_true_iff in E3. destruct E3 as [E3 _].
+    unfold refs_ok in E3. apply andb_true_iff in E3. destruct E3 as [_ E3].
+    rewrite forallb_forall in E3. specialize (E3 _ Hi).
+    destruct (resolve (ev_prefixes ev) m i); [eauto|discriminate].
+  - destruct (ev_fix_d10 ev) eqn:Efx.
+    + apply (acyclic_sub _ (edge (inc_succ_fixed (ev_prefixes ev) m par))).
+      * intros x y. apply inc_pinned_in_fixed.
+      * apply (include_dfs_spec m _ (inc_succ_fixed_closed ev m par)).
+        apply include_loop_all. exact E2.
+    + apply (include_dfs_spec m _ (inc_succ_pinned_closed ev m)).
+      eapply first_loop_inc; eauto.
+Qed.
